@@ -969,6 +969,23 @@ func (p *Parser) Parse() (Statement, error) {
 	// The fields come first: the where expression may refer to a field that is
 	// defined through another field, whose type is known once its names are resolved
 	fieldsErr := selectStmt.ValidateFields(checkCtx)
+	// A GROUP BY field was looked up before the names in the select list were
+	// resolved: one that is just the name of another field (select key as a,
+	// a as b ... group by b) still holds the bare name, which evaluates to its
+	// own text. Take the resolved select field instead
+	if fieldsErr == nil && groupByStmt != nil {
+		for i, gf := range groupByStmt.Fields {
+			if _, isName := gf.Expr.(*NameExpr); !isName {
+				continue
+			}
+			for j, fname := range selectStmt.FieldNames {
+				if fname == gf.Name && j < len(selectStmt.Fields) {
+					groupByStmt.Fields[i].Expr = selectStmt.Fields[j]
+					break
+				}
+			}
+		}
+	}
 
 	// Check syntax
 	if fieldsErr == nil {
